@@ -31,7 +31,8 @@ func RunRacePass(prop string, iters int) int {
 			return 2
 		}
 		other, _ := build([]model.Doc{{}}, 1025)
-		menu := c09Menu(other)
+		sameSchema, _ := build(batch[:4], 1025)
+		menu := c09Menu(&c09Partners{other, sameSchema})
 		n := 0
 		for i := range menu {
 			for j := i; j < len(menu); j++ {
